@@ -22,7 +22,7 @@ type c05N struct {
 	role    string        // expression site: role in the parent
 	ctx     string        // structural context opened by this node
 	partial string        // the node's text is the body of this partial (not emitted inline)
-	calls   string        // the node is a call of this user function / a contentOf of this name
+	calls   string        // the node is a call of this user function / a contentOf of this name / ("def:cfT") the up-front contentFor statement
 	code    bool          // the node's text is code without a role (a helper call head, a fn body): not renderable on its own
 }
 
@@ -86,6 +86,9 @@ type c05Gen struct {
 	strVars []string
 	intVars []string
 	nvar    int
+	sdepth  int      // statement depth left at the statement being generated (bounds blocks nested inside expressions)
+	nhtml   int      // nested-render helper calls used as expression operands so far
+	cfTop   []string // contentFor names defined unconditionally at the top of the program
 }
 
 type c05Fn struct {
@@ -144,7 +147,29 @@ func (g *c05Gen) expr(kind string, d int, role string) *c05N {
 		if leaf {
 			return c05E(role, g.pick([]string{"t", "f", "true", "false"}))
 		}
-		switch g.r.Intn(10) {
+		k := g.r.Intn(12)
+		if k >= 10 && !g.htmlOK() {
+			k = g.r.Intn(10)
+		}
+		switch k {
+		case 10, 11:
+			// a helper that renders nested template code (partial / block helper / contentOf), as operand of ! == != && ||
+			switch g.r.Intn(5) {
+			case 0:
+				return c05E(role, "!", g.html("not-operand"))
+			case 1:
+				op := g.pick([]string{"==", "!="})
+				return c05E(role, "(", g.html("infix-L("+op+")"), " "+op+" ", c05E("infix-R("+op+")", "nil"), ")")
+			case 2:
+				op := g.pick([]string{"==", "!="})
+				return c05E(role, "(", c05E("infix-L("+op+")", "nil"), " "+op+" ", g.html("infix-R("+op+")"), ")")
+			case 3:
+				op := g.pick([]string{"&&", "||"})
+				return c05E(role, "(", g.html("infix-L("+op+")"), " "+op+" ", g.expr("bool", d-1, "infix-R("+op+")"), ")")
+			default:
+				op := g.pick([]string{"&&", "||"})
+				return c05E(role, "(", g.expr("bool", d-1, "infix-L("+op+")"), " "+op+" ", g.html("infix-R("+op+")"), ")")
+			}
 		case 0, 1:
 			op := g.pick([]string{"<", ">", "<=", ">=", "==", "!="})
 			return c05E(role, "(", g.expr("int", d-1, "infix-L("+op+")"), " "+op+" ", g.expr("int", d-1, "infix-R("+op+")"), ")")
@@ -166,7 +191,13 @@ func (g *c05Gen) expr(kind string, d int, role string) *c05N {
 		if leaf {
 			return c05E(role, g.pick([]string{"xs", "ys"}))
 		}
-		switch g.r.Intn(3) {
+		k := g.r.Intn(4)
+		if k == 3 && !g.htmlOK() {
+			k = g.r.Intn(3)
+		}
+		switch k {
+		case 3:
+			return c05E(role, "[", g.html("array-elem"), "]")
 		case 0:
 			return c05E(role, "[", g.expr("int", d-1, "array-elem"), ", ", g.expr("int", d-1, "array-elem"), "]")
 		case 1:
@@ -178,7 +209,16 @@ func (g *c05Gen) expr(kind string, d int, role string) *c05N {
 		return c05E(role, `{"a": `, g.expr("int", d-1, "hash-value"), `, "b": `, g.expr("str", d-1, "hash-value"), "}")
 	}
 	// printable: anything whose value can be written
-	switch g.r.Intn(7) {
+	k := g.r.Intn(8)
+	if k == 7 && !g.htmlOK() {
+		k = g.r.Intn(7)
+	}
+	switch k {
+	case 7:
+		if g.r.Chance(40) {
+			return c05E(role, "id(", g.html("arg-go"), ")")
+		}
+		return g.html(role)
 	case 0, 1:
 		return g.expr("int", d, role)
 	case 2, 3:
@@ -206,6 +246,9 @@ func (g *c05Gen) block(ctx string, n, d int) *c05N {
 func (g *c05Gen) open() string { return g.pick([]string{"<%= ", "<% "}) }
 
 func (g *c05Gen) stmt(d int) *c05N {
+	od := g.sdepth
+	g.sdepth = d
+	defer func() { g.sdepth = od }()
 	k := g.r.Intn(20)
 	if d <= 0 && k >= 7 {
 		k = g.r.Intn(7)
@@ -237,9 +280,9 @@ func (g *c05Gen) stmt(d int) *c05N {
 	case 6:
 		return &c05N{parts: []interface{}{"<% ", c05E("index-left", "mm"), "[", g.expr("str", 1, "index-index"), "] = ", g.expr("any", 2, "index-write-value"), " %>"}}
 	case 7, 8, 9: // if / else if / else
-		n := &c05N{parts: []interface{}{g.open() + "if (", g.expr("bool", 2, "if-cond"), ") { %>", g.block("then-body", g.r.Range(1, 2), d-1)}}
+		n := &c05N{parts: []interface{}{g.open() + "if (", g.cond("if-cond"), ") { %>", g.block("then-body", g.r.Range(1, 2), d-1)}}
 		if g.r.Chance(45) {
-			n.parts = append(n.parts, "<% } else if (", g.expr("bool", 2, "elseif-cond"), ") { %>", g.block("elseif-body", 1, d-1))
+			n.parts = append(n.parts, "<% } else if (", g.cond("elseif-cond"), ") { %>", g.block("elseif-body", 1, d-1))
 		}
 		if g.r.Chance(55) {
 			n.parts = append(n.parts, "<% } else { %>", g.block("else-body", 1, d-1))
@@ -305,23 +348,7 @@ func (g *c05Gen) stmt(d int) *c05N {
 		}
 		return &c05N{parts: []interface{}{`<% contentFor("` + name + `") { %>`, body, "<% } %>", g.stmt(0), "<%= ", use, " %>"}}
 	case 15, 16: // partial
-		name := fmt.Sprintf("p%d", g.npart)
-		g.npart++
-		on := g.nested
-		g.nested = true
-		body := g.block("partial-body", g.r.Range(1, 3), d-1)
-		g.nested = on
-		body.partial = name
-		call := c05E("out", `partial("`+name+`"`)
-		switch g.r.Intn(3) {
-		case 0:
-			call.parts = append(call.parts, ")")
-		case 1:
-			call.parts = append(call.parts, ", ", g.expr("hash", 2, "arg-builtin"), ")")
-		default:
-			call = c05E("out", "partial(", c05E("arg-builtin", `"`+name+`"`), `, {"x": `, g.expr("int", 1, "hash-value"), "})")
-		}
-		return &c05N{parts: []interface{}{"<%= ", call, " %>", body}}
+		return &c05N{parts: []interface{}{"<%= ", g.partialCall("out", d), " %>"}}
 	case 17, 18: // user function definition + call
 		if g.nested {
 			return &c05N{parts: []interface{}{"<%= ", g.expr("any", 2, "out"), " %>"}}
@@ -363,9 +390,125 @@ func (g *c05Gen) stmt(d int) *c05N {
 	}
 }
 
+// htmlOK: may another nested-render helper call be used as an operand here? (bounded per program, and needs statement depth left)
+func (g *c05Gen) htmlOK() bool { return g.nhtml < 2 && g.sdepth >= 1 }
+
+// cond: the condition of an if / else if: a boolean expression, or directly a helper call that renders nested template code
+func (g *c05Gen) cond(role string) *c05N {
+	if g.htmlOK() && g.r.Chance(15) {
+		return g.html(role)
+	}
+	return g.expr("bool", 2, role)
+}
+
+// partialCall: partial("<name>"[, data]) as an expression with the given role. The body of the partial — and of its
+// layout, when the data names one — are children of the call node that are not emitted inline (c05N.partial).
+func (g *c05Gen) partialCall(role string, d int) *c05N {
+	name := fmt.Sprintf("p%d", g.npart)
+	if g.r.Chance(30) {
+		name += ".html"
+	}
+	g.npart++
+	on := g.nested
+	g.nested = true
+	body := g.block("partial-body", g.r.Range(1, 3), d-1)
+	body.partial = name
+	var lay *c05N
+	layName := ""
+	if g.r.Chance(35) {
+		// {"layout": l}: the rendered partial is handed to the partial l as yield
+		layName = fmt.Sprintf("l%d", g.npart)
+		g.npart++
+		lay = g.block("layout-body", g.r.Range(0, 1), d-1)
+		lay.partial = layName
+		y := &c05N{parts: []interface{}{"<ul><%= ", c05E("out", "yield"), " %></ul>"}}
+		if g.r.Bool() {
+			lay.parts = append([]interface{}{y}, lay.parts...)
+		} else {
+			lay.parts = append(lay.parts, y)
+		}
+	}
+	g.nested = on
+	call := c05E(role, `partial("`+name+`"`)
+	switch {
+	case lay != nil:
+		switch g.r.Intn(3) {
+		case 0:
+			call.parts = append(call.parts, `, {"layout": "`+layName+`"})`)
+		case 1:
+			call.parts = append(call.parts, `, {layout: "`+layName+`"})`)
+		default:
+			call.parts = append(call.parts, `, {"x": `, g.expr("int", 1, "hash-value"), `, "layout": "`+layName+`"})`)
+		}
+	default:
+		switch g.r.Intn(3) {
+		case 0:
+			call.parts = append(call.parts, ")")
+		case 1:
+			call.parts = append(call.parts, ", ", g.expr("hash", 2, "arg-builtin"), ")")
+		default:
+			call.parts = []interface{}{"partial(", c05E("arg-builtin", `"`+name+`"`), `, {"x": `, g.expr("int", 1, "hash-value"), "})"}
+		}
+	}
+	call.parts = append(call.parts, body)
+	if lay != nil {
+		call.parts = append(call.parts, lay)
+	}
+	return call
+}
+
+// html: a call of a helper that renders nested template code and returns template.HTML — partial (with / without
+// layout), a block helper with its block, contentOf of a block stored by contentFor — usable as an operand.
+func (g *c05Gen) html(role string) *c05N {
+	g.nhtml++
+	d := g.sdepth - 1
+	if d > 1 {
+		d = 1
+	}
+	k := g.r.Intn(6)
+	if k == 2 && (len(g.cfTop) == 0) {
+		k = 3
+	}
+	switch k {
+	case 0, 1:
+		return g.partialCall(role, d+1)
+	case 2:
+		if g.r.Bool() {
+			return c05E(role, `contentOf("`+g.pick(g.cfTop)+`")`)
+		}
+		return c05E(role, `contentOf("`+g.pick(g.cfTop)+`", `, g.expr("hash", 1, "arg-builtin"), ")")
+	}
+	var head []interface{}
+	switch g.r.Intn(4) {
+	case 0:
+		head = []interface{}{"blk()"}
+	case 1:
+		head = []interface{}{"blkArg(", g.expr("str", 1, "arg-blockhelper"), ")"}
+	case 2:
+		head = []interface{}{"htmlEscape(", g.expr("str", 1, "arg-blockhelper"), ")"}
+	default:
+		head = []interface{}{`contentOf("never-defined")`}
+	}
+	n := c05E(role, head...)
+	n.parts = append(n.parts, " { %>", g.block("helper-block", g.r.Range(1, 2), d), "<% }")
+	return n
+}
+
 func c05Program(r *Rng) *c05N {
 	g := &c05Gen{r: r}
 	root := &c05N{ctx: "top"}
+	if r.Chance(12) {
+		// PartialHelper JS-escapes the rendered partial when the content type says javascript and the name has another extension
+		root.parts = append(root.parts, &c05N{parts: []interface{}{`<% let contentType = "application/javascript" %>`}})
+	}
+	if r.Chance(35) {
+		// a contentFor block defined unconditionally up front: contentOf of it can then stand at any expression position
+		g.nested = true
+		body := g.block("contentFor-block", r.Range(1, 2), 1)
+		g.nested = false
+		root.parts = append(root.parts, &c05N{calls: "def:cfT", parts: []interface{}{`<% contentFor("cfT") { %>`, body, "<% } %>"}})
+		g.cfTop = append(g.cfTop, "cfT")
+	}
 	n := r.Range(2, 5)
 	for i := 0; i < n; i++ {
 		root.parts = append(root.parts, g.stmt(3))
